@@ -6,8 +6,10 @@ pub mod c05;
 pub mod c06;
 pub mod c08;
 pub mod c09;
+pub mod c10;
 pub mod c11;
 pub mod c15;
+pub mod c16;
 pub mod c17;
 pub mod c18;
 pub mod common;
@@ -25,8 +27,10 @@ pub fn get(id: &str, tier: Tier) -> Option<Monitor> {
         "C06" => Some(c06::monitor(tier)),
         "C08" => Some(c08::monitor(tier)),
         "C09" => Some(c09::monitor(tier)),
+        "C10" => Some(c10::monitor(tier)),
         "C11" => Some(c11::monitor(tier)),
         "C15" => Some(c15::monitor(tier)),
+        "C16" => Some(c16::monitor(tier)),
         "C17" => Some(c17::monitor(tier)),
         "C18" => Some(c18::monitor(tier)),
         _ => None,
